@@ -89,7 +89,7 @@ func TestC01(t *testing.T) {
 		mainAddr := ModuleAddr(distrtypes.DistributorMainAccount)
 		mintedCum := map[string]*big.Int{}
 		height := int64(2)
-		mintBlocks, burnBlocks, acceptedMsgs, rejectedMsgs := 0, 0, 0, 0
+		mintBlocks, burnBlocks, acceptedMsgs, rejectedMsgs, govShareUpdates := 0, 0, 0, 0, 0
 		// a second denomination for inflows (minted before the history starts)
 		FundAccount(app, v.Ctx, KeyAcc(0).Addr, sdk.NewCoins(sdk.NewCoin("uatom", sdk.NewIntFromBigInt(pow10[24]))))
 		balancesEqualSupply(t, v, "initial", &hist)
@@ -258,6 +258,38 @@ func TestC01(t *testing.T) {
 				}
 				balancesEqualSupply(t, v, "after inflow", &hist)
 			},
+			"governance_share_update": func(t *rapid.T) {
+				// governance re-plans one burn share or one named share through the partial update messages; the
+				// reference flow follows the message, not the store
+				i := rapid.IntRange(0, len(dcfg.Subs)-1).Draw(t, "sub")
+				sd := &dcfg.Subs[i]
+				budget := bigFromStr("1000000000000000000")
+				budget.Sub(budget, bigFromStr(sd.Burn))
+				for _, sh := range sd.Shares {
+					budget.Sub(budget, bigFromStr(sh.Share))
+				}
+				if len(sd.Shares) > 0 && rapid.Bool().Draw(t, "namedShare") {
+					j := rapid.IntRange(0, len(sd.Shares)-1).Draw(t, "share")
+					budget.Add(budget, bigFromStr(sd.Shares[j].Share))
+					nv := genShare18(t, "newShare", budget)
+					res := v.Run(&distrtypes.MsgUpdateSubDistributorDestinationShareParam{Authority: GovAuthority(), SubDistributorName: sd.Name, DestinationName: sd.Shares[j].Name, Share: dec18(nv)})
+					note("governance: share %s/%s = %s ok=%v", sd.Name, sd.Shares[j].Name, nv, res.OK())
+					if res.OK() {
+						sd.Shares[j].Share = nv
+						govShareUpdates++
+					}
+				} else {
+					budget.Add(budget, bigFromStr(sd.Burn))
+					nv := genShare18(t, "newBurn", budget)
+					res := v.Run(&distrtypes.MsgUpdateSubDistributorBurnShareParam{Authority: GovAuthority(), SubDistributorName: sd.Name, BurnShare: dec18(nv)})
+					note("governance: burn share of %s = %s ok=%v", sd.Name, nv, res.OK())
+					if res.OK() {
+						sd.Burn = nv
+						govShareUpdates++
+					}
+				}
+				model.Cfg = dcfg
+			},
 			"message": func(t *rapid.T) {
 				owner := KeyAcc(1 + rapid.IntRange(0, 1).Draw(t, "owner"))
 				var msg sdk.Msg
@@ -364,6 +396,9 @@ func TestC01(t *testing.T) {
 		var cl []string
 		if mintBlocks > 0 {
 			cl = append(cl, "block_minted")
+		}
+		if govShareUpdates > 0 {
+			cl = append(cl, "shares_changed_by_governance")
 		}
 		if burnBlocks > 0 {
 			cl = append(cl, "block_burned")
